@@ -27,6 +27,9 @@ type PV struct {
 type QV struct {
 	Key  kit.BStr   `json:"key"`
 	Vals []kit.BStr `json:"vals"`
+	// ByAuth: the caller sets this parameter from the operation's auth writer (a query API key) rather than from
+	// the parameter writer.
+	ByAuth bool `json:"by_auth,omitempty"`
 }
 
 // Case is one client configuration and one operation.
@@ -320,6 +323,9 @@ func buildOnce(c Case, order []int) (req *http.Request, err error, v *kit.Violat
 					}
 				}
 				for _, q := range c.Query {
+					if q.ByAuth {
+						continue
+					}
 					vals := make([]string, len(q.Vals))
 					for i, x := range q.Vals {
 						vals[i] = string(x)
@@ -330,6 +336,26 @@ func buildOnce(c Case, order []int) (req *http.Request, err error, v *kit.Violat
 				}
 				return nil
 			})}
+		for _, q := range c.Query {
+			if q.ByAuth {
+				op.AuthInfo = runtime.ClientAuthInfoWriterFunc(func(r runtime.ClientRequest, _ strfmt.Registry) error {
+					for _, q := range c.Query {
+						if !q.ByAuth {
+							continue
+						}
+						vals := make([]string, len(q.Vals))
+						for i, x := range q.Vals {
+							vals[i] = string(x)
+						}
+						if err := r.SetQueryParam(string(q.Key), vals...); err != nil {
+							return err
+						}
+					}
+					return nil
+				})
+				break
+			}
+		}
 		req, err = rt.CreateHttpRequest(op)
 	})
 	return req, err, v
@@ -355,7 +381,11 @@ func fmtQuery(qs []QV) string {
 		for _, v := range q.Vals {
 			vs = append(vs, string(v))
 		}
-		out = append(out, fmt.Sprintf("%q=%q", string(q.Key), vs))
+		by := ""
+		if q.ByAuth {
+			by = " (auth writer)"
+		}
+		out = append(out, fmt.Sprintf("%q=%q%s", string(q.Key), vs, by))
 	}
 	return "[" + strings.Join(out, " ") + "]"
 }
@@ -622,6 +652,18 @@ func Classify(c Case) (bool, []string) {
 	for k := range levels[1] {
 		if _, p := levels[2][k]; p {
 			labels["query: caller overrides pattern"] = true
+		}
+	}
+	for _, q := range c.Query {
+		if !q.ByAuth {
+			continue
+		}
+		_, inBase := levels[0][string(q.Key)]
+		_, inPat := levels[1][string(q.Key)]
+		if inBase || inPat {
+			labels["query: parameter set by the auth writer overrides a static one"] = true
+		} else {
+			labels["query: parameter set by the auth writer"] = true
 		}
 	}
 	if len(keys) == 0 {
